@@ -321,6 +321,8 @@ type wfVariant struct {
 	opener string // local directory paths end in this comment opener, inside quotes
 	tws    bool   // comments carry trailing white space; a deprecation comment is added
 	noSpec bool   // values are not the layout's: no comparison with the specification's state
+	gover  string // the go directive is replaced by (or added as) this version
+	pre    string // text put in front of the file
 }
 
 func quoteArgs(verb string, it mfItem) mfItem {
@@ -392,6 +394,21 @@ func renderVariant(layout []mfStmt, v wfVariant) string {
 		}
 		text = strings.Join(lines, "\n")
 	}
+	if v.gover != "" {
+		lines := strings.Split(text, "\n")
+		found := false
+		for i, l := range lines {
+			if strings.HasPrefix(l, "go ") {
+				lines[i] = "go " + v.gover
+				found = true
+			}
+		}
+		text = strings.Join(lines, "\n")
+		if !found {
+			text += "go " + v.gover + "\n"
+		}
+	}
+	text = v.pre + text
 	if v.crlf {
 		text = strings.Replace(text, "\n", "\r\n", -1)
 	}
@@ -424,6 +441,9 @@ func checkWellFormed(c *core.Case) ([]core.Violation, bool) {
 	}
 	variants := []wfVariant{{name: "plain"}, {name: "crlf", crlf: true}, {name: "blank", blank: true}, {name: "quoted", quote: true}, {name: "quoted-crlf-blank", quote: true, crlf: true, blank: true},
 		{name: "dir-ends-in-slashes", opener: "//", noSpec: true}, {name: "dir-ends-in-slash-star", opener: "/*", noSpec: true},
+		{name: "go-patch-version", gover: "1.21.0", noSpec: true}, {name: "go-rc-version", gover: "1.21rc2", noSpec: true}, {name: "go-beta-version", gover: "1.23beta1", noSpec: true},
+		{name: "line-starting-with-modules", pre: "require modules.example.com/x v1.0.0\n", noSpec: true},
+		{name: "block-line-starting-with-modules", pre: "require (\n\tmodules.example.com/x v1.0.0\n\tmodule.example.com/y v1.0.0\n)\n", noSpec: true},
 		{name: "comment-trailing-space", tws: true, noSpec: true}, {name: "comment-trailing-space-crlf", tws: true, crlf: true, noSpec: true}}
 	for _, v := range variants {
 		text := renderVariant(in.Layout, v)
@@ -488,7 +508,7 @@ func checkWellFormed(c *core.Case) ([]core.Violation, bool) {
 			if d := diffStates(&st1, &st2); len(d) > 0 {
 				add("c02:wf:values-changed", "directive values %v differ before and after formatting (%s, %s)\ninput:\n%s\noutput:\n%s", d, v.name, fixName, text, out)
 			}
-			if fixName == "fix" || in.Kind == "work" || v.noSpec {
+			if fixName == "fix" || in.Kind == "work" || v.opener != "" {
 				continue
 			}
 			// ---- C20: lax accepts what strict accepts, with the same module, go, require and retract values
